@@ -201,6 +201,104 @@ impl Space for IdentSweep {
     }
 }
 
+/// Every ElfStream query under one spec, as (label, digest of the Debug text of the answer).
+fn stream_observe<E: EndianParse + 'static>(bytes: &[u8]) -> Vec<(String, u64)> {
+    let mut v: Vec<(String, u64)> = Vec::new();
+    let dig = |s: String| {
+        let mut f = Fnv::new();
+        f.bytes(s.as_bytes());
+        f.get()
+    };
+    let mut f = match ElfStream::<E, _>::open_stream(Cursor::new(bytes.to_vec())) {
+        Ok(f) => f,
+        Err(e) => {
+            v.push(("open".into(), dig(format!("Err({e:?})"))));
+            return v;
+        }
+    };
+    v.push(("ehdr (without the endianness field)".into(), dig(format!("{:?}", (f.ehdr.class, f.ehdr.e_type, f.ehdr.e_machine, f.ehdr.e_entry, f.ehdr.e_phoff, f.ehdr.e_shoff, f.ehdr.e_flags, f.ehdr.e_phnum, f.ehdr.e_shnum, f.ehdr.e_shstrndx)))));
+    let shdrs = f.section_headers().clone();
+    let phdrs = f.segments().clone();
+    v.push(("section_headers".into(), dig(format!("{shdrs:?}"))));
+    v.push(("segments".into(), dig(format!("{phdrs:?}"))));
+    for (i, h) in shdrs.iter().enumerate().take(64) {
+        v.push((format!("section_data({i})"), dig(format!("{:?}", f.section_data(h)))));
+        v.push((format!("section_data_as_strtab({i})"), dig(format!("{:?}", f.section_data_as_strtab(h).map(|st| (0..8).map(|o| st.get_raw(o).ok().map(|b| b.to_vec())).collect::<Vec<_>>())))));
+        v.push((format!("section_data_as_rels({i})"), dig(format!("{:?}", f.section_data_as_rels(h).map(|it| it.take(64).collect::<Vec<_>>())))));
+        v.push((format!("section_data_as_relas({i})"), dig(format!("{:?}", f.section_data_as_relas(h).map(|it| it.take(64).collect::<Vec<_>>())))));
+        v.push((format!("section_data_as_notes({i})"), dig(format!("{:?}", f.section_data_as_notes(h).map(|it| it.take(64).collect::<Vec<_>>())))));
+    }
+    for (j, p) in phdrs.iter().enumerate().take(32) {
+        v.push((format!("segment_data_as_notes({j})"), dig(format!("{:?}", f.segment_data_as_notes(p).map(|it| it.take(64).collect::<Vec<_>>())))));
+    }
+    v.push(("section_headers_with_strtab".into(), dig(format!("{:?}", f.section_headers_with_strtab().map(|(sh, st)| (sh.clone(), st.map(|st| (0..24).map(|o| st.get_raw(o).ok().map(|b| b.to_vec())).collect::<Vec<_>>())))))));
+    for n in [".dynsym", ".gnu.hash", ".absent"] {
+        v.push((format!("section_header_by_name({n})"), dig(format!("{:?}", f.section_header_by_name(n)))));
+    }
+    v.push(("symbol_table".into(), dig(format!("{:?}", f.symbol_table().map(|o| o.map(|(t, st)| (t.iter().take(64).collect::<Vec<_>>(), (0..16).map(|o| st.get_raw(o).ok().map(|b| b.to_vec())).collect::<Vec<_>>())))))));
+    v.push(("dynamic_symbol_table".into(), dig(format!("{:?}", f.dynamic_symbol_table().map(|o| o.map(|(t, st)| (t.iter().take(64).collect::<Vec<_>>(), (0..16).map(|o| st.get_raw(o).ok().map(|b| b.to_vec())).collect::<Vec<_>>())))))));
+    v.push(("dynamic".into(), dig(format!("{:?}", f.dynamic().map(|o| o.map(|t| t.iter().take(64).collect::<Vec<_>>()))))));
+    v.push((
+        "symbol_version_table".into(),
+        dig(format!(
+            "{:?}",
+            f.symbol_version_table().map(|o| o.map(|t| (0..8usize)
+                .map(|i| (
+                    t.get_requirement(i).map(|r| r.map(|r| (r.file.to_string(), r.name.to_string(), r.hash, r.flags, r.hidden))).ok(),
+                    t.get_definition(i).map(|d| d.map(|d| (d.hash, d.flags, d.hidden, d.names.map(|n| n.map(|s| s.to_string()).ok()).collect::<Vec<_>>()))).ok()
+                ))
+                .collect::<Vec<_>>()))
+        )),
+    ));
+    v
+}
+
+/// AnyEndian == the matching fixed spec, through the stream parser (compressed sections included:
+/// the compression header is decoded by the stream on its own path).
+struct StreamAnyVsFixed {
+    sks: Vec<Skeleton>,
+}
+impl Space for StreamAnyVsFixed {
+    fn name(&self) -> String {
+        format!("every ElfStream query (all sections and segments, every typed view, symbol tables, dynamic, versions, names) under AnyEndian and under the fixed spec matching EI_DATA on {} generated objects (tiny-full in both layouts, small and extended-numbering shapes, wide objects)", self.sks.len())
+    }
+    fn size(&self) -> u64 {
+        self.sks.len() as u64
+    }
+    fn describe(&self, idx: u64) -> Value {
+        json!({"file": self.sks[idx as usize].name})
+    }
+    fn run(&self, idx: u64, out: &mut Outcome) {
+        let sk = &self.sks[idx as usize];
+        let little = sk.bytes.get(5) == Some(&1);
+        let r = subject(|| {
+            let a = stream_observe::<AnyEndian>(&sk.bytes);
+            let f = if little { stream_observe::<LittleEndian>(&sk.bytes) } else { stream_observe::<BigEndian>(&sk.bytes) };
+            (a, f)
+        });
+        match r {
+            Err(m) => out.violate(format!("panic:ElfStream in {}", panic_site(&m)), m),
+            Ok((a, f)) => {
+                out.transitions += (a.len() + f.len()) as u64;
+                if a.len() != f.len() {
+                    out.violate("any-vs-fixed:ElfStream answers a different set of queries", format!("{}: {} vs {}", sk.name, a.len(), f.len()));
+                }
+                for (x, y) in a.iter().zip(f.iter()) {
+                    if x != y {
+                        out.violate(format!("any-vs-fixed:ElfStream::{}", x.0.split('(').next().unwrap_or("?")), format!("{}: {} answers differently under AnyEndian and under the fixed spec", sk.name, x.0));
+                        break;
+                    }
+                }
+                let mut d = Fnv::new();
+                for x in &a {
+                    d.u64(x.1);
+                }
+                out.nontrivial(d.get());
+            }
+        }
+    }
+}
+
 pub fn build(tier: Tier) -> CheckDef {
     let mut bases: Vec<Skeleton> = small_shapes().into_iter().filter(|s| s.name.starts_with("shdrs-only")).collect();
     bases.extend(tiny_skeletons().into_iter().filter(|s| s.name.ends_with("linker-order")));
@@ -210,6 +308,16 @@ pub fn build(tier: Tier) -> CheckDef {
     }
     let (l, b) = lattice_spaces(tier, AnyVsFixed, "C10 AnyEndian == fixed spec");
     spaces.extend(l);
+    let mut sks = tiny_skeletons();
+    sks.extend(small_shapes());
+    sks.extend(extnum_shapes());
+    sks.extend(wide_shapes());
+    spaces.push(Box::new(StreamAnyVsFixed { sks }));
+    // the run-time spec against the compile-time ones at the level of single integer reads (value,
+    // cursor, and behaviour on failure)
+    spaces.push(Box::new(super::c04::ShortBuffers { maxlen: 2 }));
+    spaces.push(Box::new(super::c04::ByteWalks));
+    spaces.push(Box::new(super::c04::FarOffsets));
     CheckDef {
         prop: "C10",
         level: "model_checking",
